@@ -91,7 +91,9 @@ def theorems_of(path):
         if m and ns and ns[-1] == m.group(1):
             ns.pop()
             continue
-        m = re.match(r"\s*(?:@\[[^\]]*\]\s*)?(?:private\s+|protected\s+)?theorem\s+([^\s:({\[]+)", line)
+        if re.match(r"\s*(?:@\[[^\]]*\]\s*)?private\s+theorem\b", line):
+            continue            # file-local helper: not an obligation of the property (and its name is mangled)
+        m = re.match(r"\s*(?:@\[[^\]]*\]\s*)?(?:protected\s+)?theorem\s+([^\s:({\[]+)", line)
         if m:
             names.append(".".join(ns + [m.group(1)]))
     return names
